@@ -1548,7 +1548,7 @@ def event_crash_run(workload: str, k1: Any) -> bool:
                 w.close()
 
 
-def event_fault_run(workload: str, step_sym: Any, kind_sym: Any) -> bool:
+def event_fault_run(workload: str, step_sym: Any, kind_sym: Any, fresh_thread: bool = False) -> bool:
     """C13: an injected failure inside a handler transaction (exception after the event append /
     optimistic-lock conflict) at delivery step `step`: the rolled-back transaction leaves no event
     and notifies nobody; the retried delivery then records it exactly once."""
@@ -1593,7 +1593,10 @@ def event_fault_run(workload: str, step_sym: Any, kind_sym: Any) -> bool:
                         armed["on"] = True
                         before_events = sum(1 for r in _event_rows(w) if r["event_type"] in COMPLETION_EVENTS)
                         bus_before = sum(1 for ev in w.bus_log if getattr(getattr(ev, "event_type", None), "value", "") in COMPLETION_EVENTS)
-                    w.step_fifo()
+                    if fresh_thread and armed["on"] and not armed["fired"]:
+                        w.step_fifo_fresh_thread()  # the step that meets the fault is handled by a thread new to the database
+                    else:
+                        w.step_fifo()
                     if armed["on"] and not armed["fired"]:
                         armed["on"] = False  # the handler of this step has no processed-mark inside its transaction: no fault here
                         armed["fired"] = 3
@@ -1969,6 +1972,65 @@ def cancel_crash_run(workload: str, j_sym: Any, k_sym: Any, max_k: int = 14) -> 
                 bad = post_cancel(w, snap, {"injected": [1]})
                 if bad is not None:
                     return P.fail("C17/cancel_crash/%s/%s@%s" % (workload, bad[0], crashed[0][1]), {"workload": workload, "cancel_before_step": steps, "crash_commit_after_cancel": crashed[0][0], "site": crashed[0][1], "detail": bad[1]})
+                return True
+            finally:
+                HOOKS.on_commit = None
+                w.close()
+
+
+def restart_crash_run(workload: str, j_sym: Any, i_sym: Any, k_sym: Any, expire_sym: Any = True, max_k: int = 10, max_j: int = 60) -> bool:
+    """An operator restart of stage i (i symbolic) is requested before step j (also after the workflow
+    has finished); the worker is killed at its k-th durable commit after that, restarted with a
+    recovery sweep (the dead worker's lock lapsed, or still held: symbolic) and the queue is drained.  One request re-arms the stage exactly
+    once (the redelivered RestartStage is recognised as handled), the re-run happens at most once
+    more than crashes allow, and the run ends quiescent."""
+    with hx.Path("restart_crash:" + workload) as P:
+        with hx.native():
+            w = World()
+            try:
+                w.submit(WORKLOADS[workload]())
+                steps = 0
+                while steps < max_j and not hx.decide_eq(j_sym, steps):
+                    if not w.step_fifo():
+                        break
+                    steps += 1
+                refs = sorted(r for r in w.refs if not r.startswith("syn:"))
+                ref = refs[hx.pick(i_sym, len(refs))]
+                before = w.store.retrieve_stage(w.refs[ref]).status.name
+                make_inject_restart_stage(refs.index(ref))(w)
+                base = HOOKS.commits
+                crashed: list[Any] = []
+
+                def hook(conn: Any) -> None:
+                    n = HOOKS.commits - base
+                    if n <= max_k and hx.decide_eq(k_sym, n):
+                        crashed.append((n, commit_site()))
+                        HOOKS.dead = True
+                        raise Crash()
+
+                HOOKS.on_commit = hook
+                try:
+                    w.drain()
+                except Crash:
+                    pass
+                HOOKS.on_commit = None
+                if not crashed:
+                    return True
+                # the dead worker's queue lock has lapsed when the new worker starts - or it still holds and the
+                # un-acked message comes back only after everything else has been handled
+                expire = hx.decide(expire_sym)
+                w.restart(expire_locks=expire)
+                w.processor.run_recovery()
+                w.drain()
+                snap = w.snapshot()
+                info = {"workload": workload, "restart_of": ref, "locks_lapsed_at_restart": expire, "stage_status_at_request": before, "before_step": steps, "crash_commit_after_request": crashed[0][0], "site": crashed[0][1]}
+                P.reached("%s %s step %d commit %d" % (workload, ref, steps, crashed[0][0]), info)
+                rearms = [r for r in w.audit() if r["tbl"] == "stage" and r["id"] == w.refs[ref] and r["new"] == "NOT_STARTED" and (r["ctx"] or "") == "RestartStage"]
+                if len(rearms) > 1:
+                    return P.fail("C09/restart_crash/%s/one_request_re_armed_the_stage_%d_times@%s" % (workload, len(rearms), crashed[0][1]), {**info, "re_arms": len(rearms)})
+                q = quiescent_ok(snap)
+                if q is not None:
+                    return P.fail("C09/restart_crash/%s/not_quiescent/%s@%s" % (workload, state_sig(summarize(snap)), crashed[0][1]), {**info, "why": q})
                 return True
             finally:
                 HOOKS.on_commit = None
